@@ -25,11 +25,12 @@ def decrypt(priv_alg, kul, boots, time_, salt, ct):
     return ossl.aes128_cfb_decrypt(kul[:16], iv, ct)
 
 
-def encrypt(priv_alg, kul, boots, time_, salt, pt):
+def encrypt(priv_alg, kul, boots, time_, salt, pt, pad=None):
     if priv_alg == 1:
         key, pre = kul[:8], kul[8:16]
         iv = bytes(a ^ b for a, b in zip(pre, salt))
-        return ossl.des_cbc_encrypt(key, iv, pt + bytes(-len(pt) % 8))
+        n = -len(pt) % 8
+        return ossl.des_cbc_encrypt(key, iv, pt + (bytes(n) if pad is None else pad[:n]))
     iv = (boots & 0xFFFFFFFF).to_bytes(4, "big") + (time_ & 0xFFFFFFFF).to_bytes(4, "big") + salt
     return ossl.aes128_cfb_encrypt(kul[:16], iv, pt)
 
@@ -102,7 +103,9 @@ def lines_privdec(rng, n):
         mode = rng.random()
         if mode < 0.1:
             pt = pt[:rng.randrange(0, len(pt))]          # truncated plaintext: must be refused, not crash
-        ct = encrypt(alg, key, boots, time_, salt, pt)
+        # (the padding octets are the sender's business: zeros, the pad count, 0xff, anything)
+        ct = encrypt(alg, key, boots, time_, salt, pt, rng.choice([None, bytes([(-len(pt)) % 8]) * 8, b"\xff" * 8,
+                                                                   bytes(rng.getrandbits(8) | 1 for _ in range(8))]))
         if mode > 0.9:
             ct = ct[:rng.randrange(0, len(ct) + 1)]
         out.append(f"privdec {alg} {key.hex()} {boots} {time_} {salt.hex()} {gens.hx(ct)}")
@@ -213,6 +216,7 @@ def run(chk, model_ok=True):
                 st_ = s.peer.state
                 if rng.random() < 0.3:
                     st_.boots, st_.time = rng.getrandbits(31), rng.getrandbits(31)
+                st_.pad_style = rng.choice(["zero", "count", "ff", "random"])
                 if rec["op"] in ("get", "getmany") and d["varbinds"]:
                     vals = [rng.randrange(-2 ** 40, 2 ** 40) for _ in d["varbinds"]]
                     vbs = [ber.varbind(v[0], ber.INT(x)) for v, x in zip(d["varbinds"], vals)]
@@ -232,6 +236,14 @@ def run(chk, model_ok=True):
                     n_resp += 1
                 else:
                     s.recv(rec["op"], [s.peer.response(d, [])])
+    # the real clients (engine id given / None / b"", lost discovery probes and retries): a user with a privacy key
+    # never emits a request whose msgData is not the encrypted scoped PDU
+    from props import c13
+    n_cli = 0
+    for key_, script_, r_, why_ in c13.client_cases(rng, 12 if quick else 300):
+        n_cli += 1
+        if why_ and any(w in why_ for w in ("not encrypted", "not readable", "carries user", "failed with")):
+            fail(f"{key_}: {why_}", f"# client {key_}")
     nl, nd = sessions.model_compare(chk, all_sess, model_ok)
     chk.coverage.update({
         "evaluations": n_req + n_resp + len(st.lines),
@@ -244,7 +256,7 @@ def run(chk, model_ok=True):
                 "must be delivered with their exact values. Cipher objects alone: privenc sequences on one key object and "
                 "privdec of OpenSSL-encrypted responses (also truncated ones). All of it replayed on the Lean model (Lean DES/AES). distinct = distinct (digest, cipher, key type, operation, datagram length) of the session requests + distinct cipher-level request lines.",
         "samples": [{"stream": "privdec", "request": pd[0][:200], "impl": st.impl[len(pe)][:160]}] if pd else [],
-        "requests_decrypted": n_req, "responses_delivered": n_resp, "per_configuration": dict(sorted(hist.items())),
+        "requests_decrypted": n_req, "client_runs": n_cli, "responses_delivered": n_resp, "per_configuration": dict(sorted(hist.items())),
         "session_lines": nl, "session_lines_disagreeing": nd, "cipher_level_requests": len(st.lines),
         "traces_validated_against_impl": nl + len(st.lines) if model_ok else 0,
     })
